@@ -28,9 +28,9 @@ ASSUMPTIONS = [
 ]
 PLAN = {"quick": dict(programs=4000, values=3, depth=3), "thorough": dict(programs=30000, values=6, depth=5)}
 FLOORS = {"quick": {"unmarshal_nodes_compared": 70000, "marshal_nodes_compared": 70000, "exception_parity_checked": 100000, "shape_sets_compared": 30000,
-                    "same_name_two_modules": 800, "builds_watched_for_warnings": 6000, "own_class_instance_sources": 20000},
+                    "same_name_two_modules": 800, "builds_watched_for_warnings": 6000, "own_class_instance_sources": 20000, "reordered_sources": 15000},
           "thorough": {"unmarshal_nodes_compared": 1500000, "marshal_nodes_compared": 1500000, "exception_parity_checked": 600000,
-                       "shape_sets_compared": 150000, "same_name_two_modules": 8000, "builds_watched_for_warnings": 55000, "own_class_instance_sources": 100000}}
+                       "shape_sets_compared": 150000, "same_name_two_modules": 8000, "builds_watched_for_warnings": 55000, "own_class_instance_sources": 100000, "reordered_sources": 100000}}
 COMPOSITE = ("coll", "fixed", "mapping", "struct")
 
 
@@ -225,6 +225,19 @@ def check_node(sh, spec, v, prog, rng):
                 shapes.append(("json-bytes", json.dumps(w).encode()))
         except (TypeError, ValueError):
             pass
+        # the same members offered in another order than the class declares them
+        if len(w) > 1:
+            items = list(w.items())
+            other = list(reversed(items)) if rng.random() < 0.5 else rng.sample(items, len(items))
+            rw = dict(other)
+            shapes.append(("mapping-other-order", rw))
+            shapes.append(("pairs-other-order", list(other)))
+            try:
+                if not c14_bigint(w):
+                    shapes.append(("json-other-order", json.dumps(rw)))
+            except (TypeError, ValueError):
+                pass
+            sh.count("reordered_sources")
         ns = {k: x for k, x in w.items() if isinstance(k, str) and k.isidentifier()}
         if len(ns) == len(w):
             import dataclasses
